@@ -14,8 +14,8 @@
 // Checks made by the harness itself on the real object (marked "!" in the m line, reported
 // as direct violations): with `live` = the keys added and not removed since the last
 // clear, every live key has a non-zero index whose operator[] is that key; every other key
-// of the universe has index 0; variant 1: the value's tag matches its key and no value
-// object survives the set.
+// of the universe has index 0; size() is the number of live keys; remove(k) returns whether k
+// was live; variant 1: the value's tag matches its key and no value object survives the set.
 #include <morfuse/Container/arrayset.h>
 #include <morfuse/Common/MEM/DefaultAlloc.h>
 #include "common.h"
@@ -87,7 +87,7 @@ static void runCase(const std::string& id, size_t u, const std::vector<std::stri
             std::string c; long a = 0;
             is >> c >> a;
             std::string res;
-            bool undef = false, bad = false;
+            bool undef = false, bad = false, rmWrong = false;
             if (c == "add") {
                 res = "i" + std::to_string(s.addKeyIndex(T::mk((int)a)));
                 live.insert((int)a);
@@ -107,8 +107,9 @@ static void runCase(const std::string& id, size_t u, const std::vector<std::stri
             } else if (c == "size") {
                 res = "n" + std::to_string(s.size());
             } else if (c == "rm") {
-                res = s.remove(T::mk((int)a)) ? "b1" : "b0";
-                live.erase((int)a);
+                const bool r = s.remove(T::mk((int)a));
+                res = r ? "b1" : "b0";
+                if (r != (live.erase((int)a) != 0)) rmWrong = true;
             } else {
                 res = "?";
             }
@@ -135,6 +136,8 @@ static void runCase(const std::string& id, size_t u, const std::vector<std::stri
                 }
             }
             if (bad) marks += " !tag";
+            if (rmWrong) marks += " !rm";
+            if (s.size() != live.size()) marks += " !size";
             std::printf("%s%s\n", out.c_str(), marks.c_str());
             std::printf("d %zu\n", s.allocated());
             std::fflush(stdout);
